@@ -2,4 +2,5 @@
 SPECIFICATION Spec
 CONSTANTS
   Level = "full"
+  Variant = "none"
 INVARIANT Emit
